@@ -5,7 +5,7 @@ seeded/<id>/confirm.json (tools/confirm_seeded.sh) and seeded/RESULTS.tsv
 import json, os, sys
 
 ROOT = os.path.join(os.path.dirname(os.path.abspath(__file__)), "..", "seeded")
-ROUND = {"a": 1, "b": 1, "c": 2, "d": 2, "e": 3, "f": 3, "g": 4, "h": 4, "i": 5, "j": 5, "k": 6, "l": 6, "m": 7, "n": 7}
+ROUND = {"a": 1, "b": 1, "c": 2, "d": 2, "e": 3, "f": 3, "g": 4, "h": 4, "i": 5, "j": 5, "k": 6, "l": 6, "m": 7, "n": 7, "o": 8, "p": 8}
 NOTES = {
     "C07j": "not detected: needs x-goag-go-type custom item types, which are outside the driven dialect (DESIGN §12)",
     "C06n": "not detected: needs a set Nullable holding a nil slice; the value domain of the JSON checks keeps set Nullables non-nil (DESIGN §11: nil encodes as null = the unset state)",
